@@ -318,8 +318,15 @@ def _correspond(ctx, corr, rng, T, ls):
                     arg = rng.choice(["g", "d", "i"])
                     a = rng.randrange(64)
                     holes = ()
-                    if rng.random() < 0.3 and last > 3:
+                    r = rng.random()
+                    if last > 3 and r < 0.3:
                         holes = (rng.randrange(3, last + 1),)
+                    elif last > 3 and r < 0.55:
+                        # a RUN of unimplemented locations with implemented ones after it (whole values missing)
+                        start = rng.randrange(3, last + 1)
+                        holes = tuple(range(start, min(last, start + rng.randrange(2, 8) - 1) + 1))
+                    elif last > 8 and r < 0.65:
+                        holes = tuple(sorted({rng.randrange(3, last + 1) for _ in range(rng.randrange(2, 6))}))
                     u = mu.mk_unit(b, rng, kind="random", last=last, holes=holes, dev=(arg == "d"), addr=a,
                                    drift=drift, lockByte=rng.choice([0xFF, 0xFF, 0x55, 0xAA, 0x00]) if (b.has_lock or b.has_latch) else 0xFF)
                     sc = {"unit": u, "call": {"kind": "read_all", "arg": arg, "a": a, "bank": key, "latch": latch,
@@ -331,6 +338,22 @@ def _correspond(ctx, corr, rng, T, ls):
                         nf += fault_runs(ls, corr, suite + "_faults", sc,
                                          "read_all:latch" if (latch and b.has_latch) else "read_all", trace,
                                          limit=None if T else 6, rng=rng)
+        # runs of 1..6 unimplemented locations at the start, in the middle and near the end of the declared range,
+        # the locations after them implemented: every value outside the run is reported, as when read alone
+        if decl_last > 8:
+            for run in (1, 2, 3, 4, 6):
+                for start in sorted({3, max(3, decl_last // 2), max(3, decl_last - run - 1)}):
+                    holes = tuple(range(start, min(decl_last - 1, start + run - 1) + 1))
+                    if not holes:
+                        continue
+                    arg, a = rng.choice(["g", "d", "i"]), rng.randrange(64)
+                    u = mu.mk_unit(b, rng, kind="random", last=rng.choice([decl_last, 255]), holes=holes,
+                                   dev=(arg == "d"), addr=a)
+                    sc = {"unit": u, "call": {"kind": "read_all", "arg": arg, "a": a, "bank": key,
+                                              "latch": rng.random() < 0.5}}
+                    end, trace = one(ls, corr, suite, sc, "read_all")
+                    corr.nontrivial((key, "hole-run", run, end.split()[0]))
+                    n += 1
         # absent bank / unit
         a = rng.randrange(63)
         u = mu.mk_unit(b, rng, kind="random", addr=a)
